@@ -58,7 +58,7 @@ class Receiver(object):
     del events.resumeReceivingMetrics.handlers[dh['resumeReceivingMetrics']:]
     P = sh['protocols']
     self.kind = kind
-    self.proto = {'line': P.MetricLineReceiver, 'pickle': P.MetricPickleReceiver}[kind]()
+    self.proto = (kind if callable(kind) else {'line': P.MetricLineReceiver, 'pickle': P.MetricPickleReceiver}[kind])()
     self.transport = sh['StringTransport']()
     self.proto.makeConnection(self.transport)
     self.exc = None
